@@ -302,8 +302,12 @@ func (l *local) subnetCase(rng *rand.Rand, ip net.IP, mask net.IPMask) {
 		if len(mask) != alen {
 			continue // outside the membership clause
 		}
-		if fam == 6 && ipIs4 {
-			continue // net.IPNet has no coherent membership for a 4in6 base with a 16-byte mask (see DESIGN)
+		ones, _ := mask.Size()
+		if fam == 6 && ipIs4 && ones < 96 {
+			// net.IPNet has no coherent membership for an IPv4 base with a 16-byte mask shorter than /96 (it
+			// contains nothing at all; see DESIGN).  From /96 on it is the IPv4 subnet of the last four mask
+			// bytes, which holds no genuine IPv6 address: the non-mapped probes below are compared.
+			continue
 		}
 		// the net.IPNet to compare with: same address bytes in the family's length
 		refIP := ip
@@ -312,7 +316,9 @@ func (l *local) subnetCase(rng *rand.Rand, ip net.IP, mask net.IPMask) {
 			refIP = net.IP(b4[:])
 		}
 		refNet := &net.IPNet{IP: refIP, Mask: mask}
-		ones, _ := mask.Size()
+		if fam == 6 && ipIs4 {
+			refIP = ip.To16() // probes around the mapped form
+		}
 		l.succ++
 		l.n++
 		for _, x := range probes(rng, refIP, ones) {
